@@ -45,7 +45,8 @@ LEVEL_NOTE = (
     "pipe transport is the reference; externalization legs are NOT run here (external resolution needs the absent "
     "`tenacity`; left to C30); cap-shaped errors (max_response_bytes overshoot) are C16's subject and skipped; "
     "divergences that follow the C04 socket desync are skipped; HTTP eager first producer turn is allowed to deliver "
-    "more logs / an unrequested error on partially consumed streams"
+    "more logs / an unrequested error on partially consumed streams; the real httpx2 client cannot decode zstd in this "
+    "sandbox (no backports.zstd), so the real-listener leg uses gzip/identity and zstd is covered in-process only"
 )
 CATEGORY = "exploration"
 RULE = (
@@ -701,10 +702,13 @@ def run_shard(job: dict[str, Any]) -> dict[str, Any]:
         if pi < job.get("n_subprocess", 0):
             cfgs.append(("subprocess", {"kind": "subprocess", "legs": ("sequence",)}))
         if pi < job.get("n_real", 0):
-            # real waitress listener + httpx2: compression_level=None => httpx2 itself asks for gzip;
-            # compression_level=1 => the vgi client asks for zstd, gzip; identity via an explicit header
+            # real waitress listener + httpx2 with compression_level=None: httpx2 itself negotiates gzip;
+            # identity via an explicit header.  The zstd leg is NOT run against the real client: httpx2's
+            # zstd decoder needs `backports.zstd` (absent in this sandbox), so a zstd response cannot be
+            # decoded by the real client here - an environment limitation, recorded in the assumptions.
+            # Response compression with zstd is covered by the in-process client legs.
             for capname, cap in (("none", None), ("large", 100_000)):
-                for comp, rc in (("gzip", None), ("zstd", 1), ("off", None)):
+                for comp, rc in (("gzip", None), ("off", None)):
                     cfgs.append(
                         (
                             f"realhttp:cap={capname}:comp={comp}",
@@ -748,6 +752,8 @@ def main(tier: str, seed: int) -> int:
         "externalization configurations are not exercised (tenacity absent); see C30",
         "falcon.testing client drives the WSGI app for breadth; a real waitress listener + httpx2 covers a sample",
         "cap-shaped errors are excluded (C16); post-C04-desync divergences are excluded (C04)",
+        "environment limitation: httpx2's zstd decoder needs backports.zstd (absent here), so the real-listener leg runs with "
+        "compression_level=None (gzip negotiated by httpx2) and identity only; zstd responses are exercised through the in-process client",
     ]
     nsh = shard.ncpu()
     shapes = shape_programs()
